@@ -115,6 +115,7 @@ macro_rules! own_mod {
                     };
                     let mut dup_result: Option<(usize, usize, bool)> = None;
                     let mut take_check: Option<(usize, Option<String>, Option<String>)> = None;
+                    let mut drop_check: Option<String> = None;
                     let r = std::panic::catch_unwind(std::panic::AssertUnwindSafe(|| -> Option<String> {
                         match t[0] {
                             "own.new" => {
@@ -130,7 +131,28 @@ macro_rules! own_mod {
                                 };
                                 set(&mut slots, p(2), c);
                             }
-                            "own.drop" => set(&mut slots, p(1), Slot::Empty),
+                            "own.drop" => {
+                                // a container that goes away changes none of its members: their edges are what they were
+                                let before: Vec<(usize, String)> = match slots.get(p(1)) {
+                                    Some(Slot::Graph(g)) => g.iter().map(|(k, n)| (*k, degs(n))).collect(),
+                                    _ => vec![],
+                                };
+                                set(&mut slots, p(1), Slot::Empty);
+                                for (k, d) in before {
+                                    for s in slots.iter() {
+                                        let now = match s {
+                                            Slot::Graph(g) => g.get(&k).map(|n| degs(&n)),
+                                            Slot::Node(n) if *n.key() == k => Some(degs(n)),
+                                            _ => None,
+                                        };
+                                        if let Some(now) = now {
+                                            if now != d && drop_check.is_none() {
+                                                drop_check = Some(format!("node {k} had {d} while it was a member of the container that was just dropped and has {now} afterwards, seen through another owner: dropping a container must not touch its members"));
+                                            }
+                                        }
+                                    }
+                                }
+                            }
                             "own.connect" => {
                                 let (a, b) = (node_of(&slots, p(1))?, node_of(&slots, p(2))?);
                                 a.connect(&b, p(3) as u32);
@@ -307,6 +329,12 @@ macro_rules! own_mod {
                             }
                         }
                     }
+                    if let Some(m) = drop_check {
+                        let o = if ctx.has("c18") { "c18" } else { "c19" };
+                        if ctx.has(o) {
+                            ctx.fail(case, li, o, m);
+                        }
+                    }
                     // ---- oracle (C19)
                     if ctx.has("c19") {
                         let mut sorted = orig.clone();
@@ -401,10 +429,12 @@ pub fn gen_history(rng: &mut crate::rng::Rng, fl: &str, id: &str, nnodes: usize,
     let nscratch = 5;
     let g = nnodes + nscratch; // graph slot
     let orphan = g + 1; // a node that is never connected: may come and go freely
+    let g2 = orphan + 1; // a second container sharing members with the first
     for k in 0..nnodes {
         l.push(format!("own.new {k} {k}"));
     }
     l.push(format!("own.graph {g}"));
+    l.push(format!("own.graph {g2}"));
     let mut orphan_key = 100;
     let mut dup_count = 0usize;
     let mut scratch_kind: Vec<u8> = vec![0; nscratch]; // 0 empty/unknown, 1 node/edge (clonable), 2 opaque
@@ -448,11 +478,11 @@ pub fn gen_history(rng: &mut crate::rng::Rng, fl: &str, id: &str, nnodes: usize,
                 scratch_kind[si] = 1;
             }
             3 => {
-                l.push(format!("own.insert {g} {a}"));
+                l.push(format!("own.insert {} {a}", if rng.chance(40) { g2 } else { g }));
             }
             4 => {
                 if rng.chance(50) {
-                    l.push(format!("own.remove {g} {}", rng.below(nnodes)));
+                    l.push(format!("own.remove {} {}", if rng.chance(30) { g2 } else { g }, rng.below(nnodes)));
                 } else {
                     dup_count += 1;
                     let k = rng.below(nnodes);
@@ -460,7 +490,7 @@ pub fn gen_history(rng: &mut crate::rng::Rng, fl: &str, id: &str, nnodes: usize,
                 }
             }
             5 => {
-                l.push(format!("own.get {g} {} {s}", rng.below(nnodes)));
+                l.push(format!("own.get {} {} {s}", if rng.chance(30) { g2 } else { g }, rng.below(nnodes)));
                 scratch_kind[si] = 1;
             }
             6 | 7 => {
@@ -518,7 +548,7 @@ pub fn gen_history(rng: &mut crate::rng::Rng, fl: &str, id: &str, nnodes: usize,
             l.push(format!("own.held {}", nnodes + rng.below(nscratch)));
         }
     }
-    let mut rest: Vec<usize> = (nnodes..=orphan).collect();
+    let mut rest: Vec<usize> = (nnodes..=g2).collect();
     for i in (1..rest.len()).rev() {
         rest.swap(i, rng.below(i + 1));
     }
@@ -527,6 +557,15 @@ pub fn gen_history(rng: &mut crate::rng::Rng, fl: &str, id: &str, nnodes: usize,
             l.push(format!("own.remove {g} {}", rng.below(nnodes)));
         }
         l.push(format!("own.drop {s}"));
+        if s == g || s == g2 {
+            // one container is gone: what the other one still holds is untouched, edges and all
+            let other = if s == g { g2 } else { g };
+            for _ in 0..2 {
+                l.push(format!("own.get {other} {} {orphan}", rng.below(nnodes)));
+                l.push(format!("own.deg {orphan}"));
+                l.push(format!("own.drop {orphan}"));
+            }
+        }
     }
     l
 }
